@@ -25,7 +25,7 @@ import (
 //     as a success. (The comment next to the assignment says "broker error, do not return to
 //     client", the code returns it unless it is overwritten: the intention is not documented, so
 //     C16 does not decide it. A proposed change that keeps the first error is in
-//     proposed_fix_channel_not_found_error_kept.diff.)
+//     proposed_fix_channel_write_keeps_first_error.diff.)
 func TestRegression_ChannelNotFoundOverwrittenByLaterShard(t *testing.T) {
 	now := time.Now().UnixMilli()
 	// one series per shard of a 2-shard database (shard = jump hash of the tags hash)
